@@ -261,8 +261,9 @@ def check(pid, tier, seed):
         ev = dict(property_id=pid, tier=tier, seed=seed, level=spec["level"], coverage=cov,
                   assumptions=ASSUMPTIONS["_all"] + spec.get("assumptions", []), wall_s=round(wall, 2),
                   violations=len(violations), inconclusive=inconclusive)
-        os.makedirs(os.path.join(ROOT, "evidence"), exist_ok=True)
-        with open(os.path.join(ROOT, "evidence", pid + ".json"), "w") as f:
+        evdir = os.environ.get("VF_EVIDENCE_DIR") or os.path.join(ROOT, "evidence")  # sensitivity runs redirect this
+        os.makedirs(evdir, exist_ok=True)
+        with open(os.path.join(evdir, pid + ".json"), "w") as f:
             json.dump(ev, f, indent=1)
         if violations:
             for v in sorted(set(violations)):
